@@ -15,6 +15,8 @@ import (
 	"time"
 
 	"github.com/vektah/gqlparser/v2/ast"
+	"github.com/vektah/gqlparser/v2/parser"
+	"github.com/vektah/gqlparser/v2/validator"
 
 	"verif/internal/diffrun"
 	"verif/internal/drive"
@@ -64,70 +66,27 @@ func main() {
 			omit, _ := env.Probe.Options["nullable_input_omittable"].(bool)
 			for i := 0; i < nOps; i++ {
 				opSeed := seed*3000017 + int64(i)
-				op, doc, _ := diffrun.GenValid(env.Schema, opSeed, ast.Query, opgen.Config{MaxDepth: 4, MaxSel: 4, Defer: true, DeferProb: 0.6})
+				var op *opgen.Op
+				var doc *ast.QueryDocument
+				if i%2 == 1 {
+					op = templated(opSeed)
+					d, perr := parser.ParseQuery(&ast.Source{Input: op.Query})
+					if perr == nil && len(validator.Validate(env.Schema, d)) == 0 {
+						doc = d
+					} else {
+						rep.Count("template_rejected", 1)
+						continue
+					}
+					rep.Count("templated_ops", 1)
+				} else {
+					op, doc, _ = genRandom(env, opSeed)
+				}
+				_ = doc
 				if doc == nil {
 					rep.Count("opgen_rejected", 1)
 					continue
 				}
-				if op.Features["defer"] == 0 {
-					rep.Count("ops_without_defer_marks_skipped", 1)
-					continue
-				}
-				vars := diffrun.DecodeVars(op.Vars)
-				for pi, base := range []univ.SeedPlan{
-					{Seed: uint64(opSeed), MaxList: 3, NullPermille: 20},
-					{Seed: uint64(opSeed) + 1, MaxList: 3, ErrPermille: 120, NullPermille: 120, DirPermille: 100},
-				} {
-					for _, sm := range []int{0, 2, 3, 4} {
-						p := base
-						p.SchedMode = sm
-						want := ref.Execute(env, &p, doc, op.OpName, diffrun.CopyJSON(vars), ref.Options{Omittable: omit})
-						if want.RequestError != "" {
-							continue
-						}
-						run := &univ.Run{Plan: &p}
-						got := srv.Run(context.Background(), run, op.Query, op.OpName, diffrun.CopyJSON(vars), 30*time.Second)
-						mu.Lock()
-						evals++
-						mu.Unlock()
-						cid := diffrun.Case{Probe: name, OpSeed: opSeed, Kind: "query", Plan: p, Query: op.Query, OpName: op.OpName, Vars: op.Vars,
-							Extra: map[string]any{"schedule": schedNames[sm]}}
-						if got.TimedOut {
-							rep.Inconclusive("payload sequence did not end within the watchdog: " + op.Query)
-							continue
-						}
-						sig, why, info := judge(want, got)
-						if why != "" {
-							rep.Violate(sig, map[string]any{"case": cid, "why": why, "payloads": describe(got), "plain": want.Data.Render(), "plain_errors": want.Errors})
-						}
-						if info.incremental > 0 {
-							rep.Distinct("deferred_cases", fmt.Sprintf("%s|%s|%d|%d", name, op.Query, pi, sm))
-							rep.Count("incremental_payloads", int64(info.incremental))
-							rep.Count("groups_delivered_null", int64(info.nullGroups))
-							rep.Count("groups_nested_in_groups", int64(info.nested))
-							rep.Count("groups_inside_lists", int64(info.inLists))
-							rep.Count("groups_with_label", int64(info.labelled))
-							rep.Count("errors_in_incremental_payloads", int64(info.incErrors))
-							rep.Count("runs_schedule_"+schedNames[sm], 1)
-							rep.Distinct("arrival_orders", fmt.Sprintf("%s|%s|%d|%s", name, op.Query, pi, info.order))
-							if info.strict {
-								rep.Count("cases_compared_exactly", 1)
-							} else {
-								rep.Count("cases_compared_modulo_group_null_stop", 1)
-							}
-							if pi == 1 && sm == 3 {
-								rep.Sample(map[string]any{"probe": name, "query": op.Query, "variables": op.Vars, "payloads": describe(got)})
-							}
-						} else {
-							rep.Count("runs_without_incremental_payload", 1)
-						}
-					}
-				}
-				for k, v := range op.Features {
-					if strings.HasPrefix(k, "defer") {
-						rep.Count("opfeature_"+k, int64(v))
-					}
-				}
+				runOp(rep, env, srv, name, opSeed, op, doc, omit, &mu, &evals)
 			}
 		}(name)
 	}
@@ -136,10 +95,148 @@ func main() {
 	os.Exit(rep.Finish(evals, int64(rep.DistinctLen("deferred_cases"))))
 }
 
+var templates = []string{
+	`{ an { vid D1 { bo { vid D2 { rs a { vid } } } rs ri } } }`,
+	`{ as(n: N) { vid D1 { rs rbl { vid D2 { rs d { nn } } } } } }`,
+	`{ an { D1 { rsn } D2 { rs bn { vid D3 { rs } } } } }`,
+	`{ an { bo { D1 { a { vid D2 { rs bo { vid D3 { rs } } } } } } } }`,
+	`{ node(k: N) { vid ... on A D1x { rs rblnn { vid D2 { rs } } } ... on B D3x { rs al { vid D1 { ri } } } } }`,
+	`{ an { D1 { rs } D1 { ri } D2 { re rbln { D3 { rs a { vid D1 { rs } } } } } } }`,
+	`{ an { cn { vid D1 { d { nn D2 { e { nn } } } dd { vid D3 { nn } } } } } }`,
+	`{ a(k: N) { vid us { __typename ... on B D1x { rs d { vid D2 { nn } } } ... on A D2x { rg rgn } } } }`,
+}
+
+// templated instantiates one nested-@defer family with seeded labels / if-arguments / list sizes.
+func templated(seed int64) *opgen.Op {
+	h := func(k string) uint64 { return univ.H("tmpl", fmt.Sprint(seed), k) }
+	t := templates[h("t")%uint64(len(templates))]
+	vars := map[string]any{}
+	decl := ""
+	dir := func(slot string, inline bool) string {
+		var args []string
+		switch h("lab"+slot) % 4 {
+		case 0:
+			args = append(args, `label: "`+slot+`"`)
+		case 1:
+			args = append(args, `label: "same"`)
+		}
+		switch h("if"+slot) % 6 {
+		case 0:
+			args = append(args, "if: true")
+		case 1:
+			args = append(args, "if: false")
+		case 2:
+			if !strings.Contains(decl, "$dv") {
+				decl = "($dv: Boolean!)"
+				vars["dv"] = h("dv")%2 == 0
+			}
+			args = append(args, "if: $dv")
+		}
+		d := " @defer"
+		if len(args) > 0 {
+			d += "(" + strings.Join(args, ", ") + ")"
+		}
+		if inline {
+			return d // follows an existing "... on T"
+		}
+		return "..." + d
+	}
+	for _, slot := range []string{"D1x", "D2x", "D3x"} {
+		t = strings.ReplaceAll(t, slot, dir(slot[:2], true))
+	}
+	for _, slot := range []string{"D1", "D2", "D3"} {
+		t = strings.ReplaceAll(t, slot, dir(slot, false))
+	}
+	t = strings.ReplaceAll(t, "N", fmt.Sprint(h("n")%5))
+	q := "query T" + decl + " " + t
+	return &opgen.Op{Query: q, OpName: "T", Vars: vars, Kind: "query", Features: map[string]int{"defer": 3, "templated": 1}}
+}
+
+func genRandom(env *univ.Env, opSeed int64) (*opgen.Op, *ast.QueryDocument, string) {
+	return diffrun.GenValid(env.Schema, opSeed, ast.Query, opgen.Config{MaxDepth: 4, MaxSel: 4, Defer: true, DeferProb: 0.6,
+		// deferral only applies to resolver-backed fields of non-root objects: bias towards them
+		FieldFilter: func(t, f string) bool {
+			if f == "xsc" {
+				return false
+			}
+			m, ok := env.Probe.Fields[t+"."+f]
+			if !ok || m.Resolver || t == "Query" {
+				return true
+			}
+			return f == "vid" || f == "name" || f == "s" || f == "sn" || f == "cn" || f == "c" || f == "bl"
+		}})
+}
+
+func runOp(rep *ev.Reporter, env *univ.Env, srv *drive.Server, name string, opSeed int64, op *opgen.Op, doc *ast.QueryDocument, omit bool, mu *sync.Mutex, evalsP *int64) {
+	{
+		{
+			if op.Features["defer"] == 0 {
+				rep.Count("ops_without_defer_marks_skipped", 1)
+				return
+			}
+			vars := diffrun.DecodeVars(op.Vars)
+			for pi, base := range []univ.SeedPlan{
+				{Seed: uint64(opSeed), MaxList: 3, NullPermille: 20},
+				{Seed: uint64(opSeed) + 1, MaxList: 3, ErrPermille: 120, NullPermille: 120, DirPermille: 100},
+			} {
+				for _, sm := range []int{0, 2, 3, 4} {
+					p := base
+					p.SchedMode = sm
+					want := ref.Execute(env, &p, doc, op.OpName, diffrun.CopyJSON(vars), ref.Options{Omittable: omit})
+					if want.RequestError != "" {
+						continue
+					}
+					run := &univ.Run{Plan: &p}
+					got := srv.Run(context.Background(), run, op.Query, op.OpName, diffrun.CopyJSON(vars), 30*time.Second)
+					mu.Lock()
+					*evalsP++
+					mu.Unlock()
+					cid := diffrun.Case{Probe: name, OpSeed: opSeed, Kind: "query", Plan: p, Query: op.Query, OpName: op.OpName, Vars: op.Vars,
+						Extra: map[string]any{"schedule": schedNames[sm]}}
+					if got.TimedOut {
+						rep.Inconclusive("payload sequence did not end within the watchdog: " + op.Query)
+						continue
+					}
+					sig, why, info := judge(want, got)
+					if why != "" {
+						rep.Violate(sig, map[string]any{"case": cid, "why": why, "payloads": describe(got), "plain": want.Data.Render(), "plain_errors": want.Errors})
+					}
+					if info.incremental > 0 {
+						rep.Distinct("deferred_cases", fmt.Sprintf("%s|%s|%d|%d", name, op.Query, pi, sm))
+						rep.Count("incremental_payloads", int64(info.incremental))
+						rep.Count("groups_delivered_null", int64(info.nullGroups))
+						rep.Count("groups_nested_in_groups", int64(info.nested))
+						rep.Count("groups_inside_lists", int64(info.inLists))
+						rep.Count("groups_with_label", int64(info.labelled))
+						rep.Count("errors_in_incremental_payloads", int64(info.incErrors))
+						rep.Count("runs_schedule_"+schedNames[sm], 1)
+						rep.Distinct("arrival_orders", fmt.Sprintf("%s|%s|%d|%s", name, op.Query, pi, info.order))
+						if info.strict {
+							rep.Count("cases_compared_exactly", 1)
+						} else {
+							rep.Count("cases_compared_modulo_group_null_stop", 1)
+						}
+						if pi == 1 && sm == 3 {
+							rep.Sample(map[string]any{"probe": name, "query": op.Query, "variables": op.Vars, "payloads": describe(got)})
+						}
+					} else {
+						rep.Count("runs_without_incremental_payload", 1)
+					}
+				}
+			}
+			for k, v := range op.Features {
+				if strings.HasPrefix(k, "defer") {
+					rep.Count("opfeature_"+k, int64(v))
+				}
+			}
+		}
+	}
+}
+
 type info struct {
 	incremental, nullGroups, nested, inLists, labelled, incErrors int
-	strict                                                       bool
-	order                                                        string
+	strict                                                        bool
+	order                                                         string
 }
 
 func describe(got *drive.Real) []map[string]any {
